@@ -211,8 +211,14 @@ def handle : List String → String
       | _ => none
     match (if tbl == "-" then some [] else (tbl.splitOn ",").mapM parseAddr), ss.mapM parseSeg with
     | some tbl, some segs =>
-      showLogical { docs := shuffledDocs segs tbl,
-                    terms := dropEmpty ((allKeys segs).map fun k => (k, shuffledPostings segs tbl k)) }
+      -- the doc store goes through per-source iterators (`storeIter`); it must deliver the
+      -- documents the table asks for
+      match storeIter (storeIters segs) tbl with
+      | none => "store-iterator-ran-dry"
+      | some ds =>
+        if ds != shuffledDocs segs tbl then "store-iterator-differs" else
+        showLogical { docs := shuffledDocs segs tbl,
+                      terms := dropEmpty ((allKeys segs).map fun k => (k, shuffledPostings segs tbl k)) }
     | _, _ => "bad-op"
   | "tracem" :: toks =>
     match traceRunM toks with
